@@ -175,6 +175,24 @@ static std::string handle(const Toks & t)
     emit(o, s.R()); emit(o, s.dRdAngleAroundXAxis()); emit(o, s.dRdAngleAroundYAxis()); emit(o, s.dRdAngleAroundZAxis());
     return o;
   }
+  if (op == "smart.hist") {
+    // a history on ONE object: groups (kind a b c), kind 0 = three-scalar constructor, 1 = Eigen::Vector3d constructor (both only as
+    // the first step), 2 = init(x, y, z), 3 = init(Eigen::Vector3d); prints R and the three derivative matrices after the last step
+    if (t.size() < 5 || (t.size() - 1) % 4 != 0) { throw vp::BadOp(); }
+    auto a = floats(t, 1, t.size() - 1);
+    std::unique_ptr<SmartRotation3D> s;
+    for (size_t g = 0; g + 3 < a.size(); g += 4) {
+      const int kind = static_cast<int>(a[g]);
+      Eigen::Vector3d ang(a[g + 1], a[g + 2], a[g + 3]);
+      if (g == 0) {
+        if (kind == 0) { s.reset(new SmartRotation3D(ang(0), ang(1), ang(2))); }
+        else if (kind == 1) { s.reset(new SmartRotation3D(ang)); }
+        else { s.reset(new SmartRotation3D()); if (kind == 2) { s->init(ang(0), ang(1), ang(2)); } else { s->init(ang); } }
+      } else if (kind == 2) { s->init(ang(0), ang(1), ang(2)); } else if (kind == 3) { s->init(ang); } else { throw vp::BadOp(); }
+    }
+    emit(o, s->R()); emit(o, s->dRdAngleAroundXAxis()); emit(o, s->dRdAngleAroundYAxis()); emit(o, s->dRdAngleAroundZAxis());
+    return o;
+  }
   if (op == "smart.dRT") {
     auto a = floats(t, 1, 6);
     Eigen::Vector3d ang(a[0], a[1], a[2]), T(a[3], a[4], a[5]);
